@@ -298,6 +298,14 @@ class Index:
                 continue
             if trait is not None and d.kind != 'impl':
                 continue
+            if not f.startswith('<'):
+                # `Type::method` names an inherent method of Type; `module::name` / `name` names a free function
+                owner = re.sub(r'<.*$', '', prefix.split('::')[-1]) if prefix else ''
+                if owner[:1].isupper():
+                    if d.kind != 'impl' or d.self_ty is None or parse_ty(d.self_ty, d.tyvars)[1:2] != (owner,):
+                        continue
+                elif d.kind == 'impl':
+                    continue
             env = {}
             if f.startswith('<') and d.kind == 'impl' and d.self_ty is not None:
                 if not unify(parse_ty(d.self_ty, d.tyvars), parse_ty(self_s), env):
